@@ -126,37 +126,48 @@ AuditOk(p, path) ==
 
 \* <<hash, type>> of a proof term. Proofs spell out every trie level, hashes
 \* are those of the collapsed trie: (E, D) and (D, E) forward the D child.
+\* the node above two nodes a, b (each <<hash, type>>)
+Join(a, b) == IF a[2] = "E" /\ b[2] = "D" THEN b
+              ELSE IF a[2] = "D" /\ b[2] = "E" THEN a
+              ELSE <<H(a[2], b[2], a[1], b[1]), IF a[2] = "T" /\ b[2] = "T" THEN "D" ELSE "M">>
 RECURSIVE PNode(_)
 PNode(p) ==
   CASE p.t = "E" -> <<Blank, "E">>
     [] p.t = "T" -> <<p.v, "T">>
     [] p.t = "R" -> <<p.v, "M">>
-    [] p.t = "M" -> (LET a == PNode(p.l)
-                         b == PNode(p.r)
-                     IN IF a[2] = "E" /\ b[2] = "D" THEN b
-                        ELSE IF a[2] = "D" /\ b[2] = "E" THEN a
-                        ELSE <<H(a[2], b[2], a[1], b[1]), IF a[2] = "T" /\ b[2] = "T" THEN "D" ELSE "M">>)
+    [] p.t = "M" -> Join(PNode(p.l), PNode(p.r))
 ProofRoot(p) == RootOfNode(PNode(p))
 
 \* follow the bits of x down the term: "yes" / "no" / "err" (route ends in a
 \* truncated subtree, or leaves the 256-bit key space)
 RECURSIVE Lookup(_, _, _)
 Lookup(p, x, d) ==
-  CASE p.t = "E" -> "no"
-    [] p.t = "T" -> (IF p.v = x THEN "yes" ELSE "no")
-    [] p.t = "R" -> "err"
-    [] p.t = "M" -> (IF d > 255 THEN "err"
+  IF p.t = "M" THEN (IF d > 255 THEN "err"
                      ELSE IF Bit(x, d) = 0 THEN Lookup(p.l, x, d + 1) ELSE Lookup(p.r, x, d + 1))
+  ELSE IF p.t = "E" THEN "no"
+  ELSE IF p.t = "T" THEN (IF p.v = x THEN "yes" ELSE "no")
+  ELSE "err"
 
 \* verdict of a proof term for item x against root: one of
 \* "depth" "audit" "root" "err" (all rejections) or "yes" / "no" (accepted)
-ClassifyTree(p, x, root) ==
-  IF ~DepthOk(p, 0) THEN "depth"
-  ELSE IF ~AuditOk(p, <<>>) THEN "audit"
+\* the part of the verdict that does not depend on the item: "" = passes
+AuditAndRoot(p, root) ==
+  IF ~AuditOk(p, <<>>) THEN "audit"
   ELSE IF ProofRoot(p) # root THEN "root"
-  ELSE Lookup(p, x, 0)
-\* ... and of a byte string: additionally "parse" and "trailing"
-Classify(b, x, root) == LET d == Deser(b) IN IF d.why # "" THEN d.why ELSE ClassifyTree(d.p, x, root)
+  ELSE ""
+Structural(p, root) == IF ~DepthOk(p, 0) THEN "depth" ELSE AuditAndRoot(p, root)
+ClassifyTree(p, x, root) == LET s == Structural(p, root) IN IF s # "" THEN s ELSE Lookup(p, x, 0)
+\* ... and of a byte string: additionally "parse" and "trailing" (Deser has
+\* already enforced the depth limit on the term it returns)
+Classify(b, x, root) ==
+  LET d == Deser(b)
+      s == IF d.why # "" THEN d.why ELSE AuditAndRoot(d.p, root)
+  IN IF s # "" THEN s ELSE Lookup(d.p, x, 0)
+\* the same for a sequence of items (the structural part is evaluated once)
+ClassifyMany(b, xs, root) ==
+  LET d == Deser(b)
+      s == IF d.why # "" THEN d.why ELSE AuditAndRoot(d.p, root)
+  IN [i \in DOMAIN xs |-> IF s # "" THEN s ELSE Lookup(d.p, xs[i], 0)]
 Accepting(c) == c \in {"yes", "no"}
 \* the verdict of validate_merkle_proof: "yes" = Ok(true), "no" = Ok(false), "err"
 VerdictOf(c) == IF Accepting(c) THEN c ELSE "err"
